@@ -724,6 +724,11 @@ func VisitWithTypeInfo(ttypeInfo typeInfo.TypeInfoI, visitorOpts *VisitorOptions
 								ttypeInfo.Enter(result)
 							}
 						}
+					} else if action == ActionSkip {
+						// no leave will be delivered for a skipped node: pop
+						// what Enter pushed, or every later node is typed
+						// against this node's context
+						ttypeInfo.Leave(node)
 					}
 					return action, result
 				}
